@@ -14,6 +14,7 @@ class Ctx:
         self._fe = {}
         self._paths = {}
         self.sliced = set()
+        self.unspliced = set()
 
     def field_elem(self, cls):
         if cls is None:
@@ -36,8 +37,49 @@ class Ctx:
                 # rule-relevant slicing: conditions that govern no event are walked once, loops unrolled once
                 kw2 = dict(kw, relevant_only=True, K=1)
                 self.sliced.add(fn.fq)
-                self._paths[key] = enumerate_paths(self.model, fn, cls=cls, field_elem=self.field_elem(cls), **kw2)
+                try:
+                    self._paths[key] = enumerate_paths(self.model, fn, cls=cls, field_elem=self.field_elem(cls), **kw2)
+                except AnalysisError as e2:
+                    if 'path explosion' not in str(e2):
+                        raise
+                    # last resort: no helper splicing (calls stay opaque SELFCALL events)
+                    kw3 = dict(kw2, inline=False)
+                    self.unspliced.add(fn.fq)
+                    self._paths[key] = enumerate_paths(self.model, fn, cls=cls, field_elem=self.field_elem(cls), **kw3)
         return self._paths[key]
+
+    def entry_methods(self, cls):
+        """methods of cls to analyse on their own: everything except private helpers that are only ever reached by being
+        called (and therefore spliced) from other methods of the class.  A helper that is also handed to a scheduler
+        (loop.call_later(..., self._flush, key)) or that is part of the node protocol stays an entry point."""
+        import ast
+        from .model import own_nodes
+        PROTOCOL = {'update', 'emit', '_emit', 'start', 'stop', 'destroy', 'connect', 'disconnect', 'flush', 'run', '_run',
+                    '_add_upstream', '_remove_upstream', '_add_downstream', '_remove_downstream', '_retain_refs', '_release_refs'}
+        called, referenced = set(), set()
+        for mname, fn in cls.methods.items():
+            for n in own_nodes(fn.node):
+                if isinstance(n, ast.Call) and isinstance(n.func, ast.Attribute) and isinstance(n.func.value, ast.Name) \
+                        and n.func.value.id == 'self' and n.func.attr in cls.methods and n.func.attr != mname:
+                    called.add(n.func.attr)
+            for n in own_nodes(fn.node):
+                if isinstance(n, ast.Attribute) and isinstance(n.value, ast.Name) and n.value.id == 'self' \
+                        and n.attr in cls.methods:
+                    referenced.add((n.attr, id(n)))
+            # references that are not the callee of a call = handed over as a callback
+        callbacks = set()
+        for mname, fn in cls.methods.items():
+            callee_ids = {id(n.func) for n in own_nodes(fn.node) if isinstance(n, ast.Call)}
+            for n in own_nodes(fn.node):
+                if isinstance(n, ast.Attribute) and isinstance(n.value, ast.Name) and n.value.id == 'self' \
+                        and n.attr in cls.methods and id(n) not in callee_ids:
+                    callbacks.add(n.attr)
+        out = []
+        for mname, fn in cls.methods.items():
+            if mname in called and mname.startswith('_') and mname not in PROTOCOL and mname not in callbacks:
+                continue
+            out.append((mname, fn))
+        return out
 
     def where(self, fn, line):
         return '%s:%d' % (fn.file, line)
